@@ -58,7 +58,9 @@ Record sh := {
   cidx : list (N * nat)          (* tunnox:client_mappings:<client> entries *)
 }.
 
-Inductive res := ROk (m : nat) | RRevoked | RTick | RErr (e : N) | RUnmodelled.
+(* RRevoked: the revocation wrote the revoked record under both keys.  RGone: RevokeConnectionCode returned nil through
+   repo.Update's delete branch because the code had already expired and vanished — nothing was written. *)
+Inductive res := ROk (m : nat) | RRevoked | RGone | RTick | RErr (e : N) | RUnmodelled.
 
 Inductive pc :=
 | PGet | PQuota | PClaim | PMain | PGlob | PCleanup | PIdxL | PIdxT | PUpdCode | PUpdId
@@ -223,7 +225,7 @@ Section Step.
         else (set_pc t (if expired s then PDelGet else PUpdCode), set_claim s true)
     | PDelGet =>                                        (* repo.Update on an expired code: Delete -> GetByID *)
         match by_id s with
-        | None => (finish t RRevoked, s)                (* "already deleted" counts as success *)
+        | None => (finish t RGone, s)                   (* "already deleted" counts as success; nothing written *)
         | Some _ => (finish t RUnmodelled, s)           (* deletion of a re-written record: not modelled *)
         end
     | PUpdCode =>
